@@ -6,7 +6,7 @@ use crate::proj::{self, Kind, Module};
 use serde_json::json;
 use std::collections::{BTreeMap, BTreeSet};
 
-const CUSTOM_IMPORTS: [&[&str]; 3] = [&[], &["core::fmt::Write"], &["core::fmt::Write", "core::ops::Deref as VerifDeref", "alloc::collections::BTreeMap", "std::fmt::Debug as VerifDebug"]];
+const CUSTOM_IMPORTS: [&[&str]; 3] = [&[], &["core::fmt::Write"], &["core::fmt::Write", "core::ops::Deref as VerifDeref", "alloc::collections::BTreeMap", "std::fmt::Debug as VerifDebug", "users::directory::Entry", "user_types::*"]];
 fn annotations(i: usize) -> Option<Vec<String>> {
     match i {
         0 => None,
@@ -395,7 +395,7 @@ impl Ord for Point {
 pub fn run(ctx: &Ctx) -> Report {
     let mut rep = Report::new(
         "exploration",
-        "grammar-G module sets (1..3 modules, imports, module-qualified references, CHOICEs with repeated payload types, ANY) compiled under the configuration lattice {2^4 boolean options} x {no, one, four custom imports, one of them a std:: path} x {default, extra derives, extra non-derive attribute, derives listed twice, `Default` among the derives, trailing comma in the derive list, `Copy` among the derives} = 336 points (quick: an 84-point sub-lattice containing every coordinate value) and compared along every edge that changes exactly one coordinate. Allowance per coordinate: generate_from_impls = only added `impl From<P> for Choice`, exactly one per alternative whose payload type occurs once in that CHOICE; default_wildcard_imports = only `use super::m::{..}` -> `use super::m::*` for the same sibling modules; no_std_compliant_bindings = only the LazyLock/lazy_static prelude line and the wrapping of statics (name, type, initialiser equal); custom_imports = only the configured use lines added to every module; type_annotations = only outer attributes of type items, rasn attributes unchanged, the six required derives exactly once; opaque_open_types = no type/value definition changes. Non-trivial = at least one edge compared; distinct by model hash.",
+        "grammar-G module sets (1..3 modules, imports, module-qualified references, CHOICEs with repeated payload types, ANY) compiled under the configuration lattice {2^4 boolean options} x {no, one, six custom imports, one of them a std:: path, two whose first segment begins with the letters `use`} x {default, extra derives, extra non-derive attribute, derives listed twice, `Default` among the derives, trailing comma in the derive list, `Copy` among the derives} = 336 points (quick: an 84-point sub-lattice containing every coordinate value) and compared along every edge that changes exactly one coordinate. Allowance per coordinate: generate_from_impls = only added `impl From<P> for Choice`, exactly one per alternative whose payload type occurs once in that CHOICE; default_wildcard_imports = only `use super::m::{..}` -> `use super::m::*` for the same sibling modules; no_std_compliant_bindings = only the LazyLock/lazy_static prelude line and the wrapping of statics (name, type, initialiser equal); custom_imports = only the configured use lines added to every module; type_annotations = only outer attributes of type items, rasn attributes unchanged, the six required derives exactly once; opaque_open_types = no type/value definition changes. Non-trivial = at least one edge compared; distinct by model hash.",
     );
     rep.must_observe = vec!["edges_compared[generate_from_impls]".into(), "edges_compared[type_annotations]".into(), "edges_compared[no_std_compliant_bindings]".into(), "from_impls_seen".into(), "default_impls_seen".into()];
     rep.assumptions = vec!["payload-type uniqueness is judged on the generated payload type tokens (module path and Box stripped)".into()];
